@@ -287,6 +287,12 @@ func (e *Engine) canonicalise(st *State, base ObjID, roots []Value) []Value {
 	}
 	for _, pg := range st.parked {
 		r.obj(pg.wait)
+		for _, w := range pg.waits {
+			r.obj(w)
+		}
+		if pg.selSend != 0 {
+			r.obj(pg.selSend)
+		}
 		r.visit(pg.sendVal)
 		for _, fc := range pg.stack {
 			for _, k := range sortedRegs(fc.fr) {
@@ -419,6 +425,18 @@ func (e *Engine) canonicalise(st *State, base ObjID, roots []Value) []Value {
 			}
 			if n, ok := r.ren[pg.wait]; ok {
 				c.wait = n
+			}
+			if n, ok := r.ren[pg.selSend]; ok && pg.selSend != 0 {
+				c.selSend = n
+			}
+			if len(pg.waits) > 0 {
+				c.waits = make([]ObjID, len(pg.waits))
+				for k, w := range pg.waits {
+					c.waits[k] = w
+					if n, ok := r.ren[w]; ok {
+						c.waits[k] = n
+					}
+				}
 			}
 			np[i] = &c
 		}
